@@ -150,11 +150,13 @@ for h, t, b, tier in [
 # ---------------------------------------------------------------------------------------------------------------- C01
 add = prop("C01", "c01",
  "Bounded model checking of the real pairwise::Aligner: for each listed shape and clip pattern ALL sequence contents, ALL substitution tables (2x2 on symbol classes, entries in [-4,4], asymmetric and positive mismatch scores included), ALL gap penalties in [-4,0] and ALL enabled clip penalties in [-4,0] are covered by one solver query. (a) No competitor alignment the solver can pick (any sub-ranges, any operation string) scores higher than the reported score; (b) the reported operations and coordinates are walked against x and y and re-scored from the documented model. (a)+(b) => the score is the optimum and the path attains it.",
- "Bound: custom() at shape 1x1 for all 16 enabled/disabled clip patterns with fully symbolic scoring (quick); 1x2 shapes, the restore-after-semiglobal/global history (second call on the same object) and concrete-scheme variants (thorough). " + TRUST + "Not decided: path validity (b) from 2x2 upwards (walking a result Vec of symbolic length exhausts 24 GB; the optimality half (a) alone is decided at 2x2 and 3x3 in the thorough tier), local()/semiglobal() as first call (1x1 took 15-18 min and is covered only through the restore instances), history across different shapes. Outside: scores outside [-4,4]; overflow for astronomically large scores.",
+ "Bound: custom() at shape 1x1 with fully symbolic scoring for 6 of the 16 enabled/disabled clip patterns (quick: none, x-prefix only, x-suffix+y-prefix, x-prefix+y-suffix, both y ends, all four) and for all 16 (thorough); 1x2 shapes, the restore-after-semiglobal/global history (second call on the same object) and concrete-scheme variants (thorough). " + TRUST + "Not decided: path validity (b) from 2x2 upwards (walking a result Vec of symbolic length exhausts 24 GB; the optimality half (a) alone is decided at 2x2 and 3x3 in the thorough tier), local()/semiglobal() as first call (1x1 took 15-18 min and is covered only through the restore instances), history across different shapes. Outside: scores outside [-4,4]; overflow for astronomically large scores.",
  ["bio::alignment::pairwise::Aligner::{with_capacity_and_scoring,custom,global,semiglobal,local}", "pairwise::{Scoring,MatchFunc for closures,Traceback,TracebackCell}", "bio_types::alignment::Alignment::filter_clip_operations"],
  "see level_note", "see level_note", ["substitution function = 2x2 table indexed by (byte & 1); bytes themselves fully symbolic"])
 for k in range(16):
-    add(f"c01_custom_1x1_k{k}", 450, f"custom(), shape 1x1, clip pattern {k:04b} (bit0 xclip_prefix, bit1 xclip_suffix, bit2 yclip_prefix, bit3 yclip_suffix enabled, others MIN_SCORE); bytes, 2x2 score table, gaps and enabled clips symbolic", role="custom")
+    add(f"c01_custom_1x1_k{k}", 490, f"custom(), shape 1x1, clip pattern {k:04b} (bit0 xclip_prefix, bit1 xclip_suffix, bit2 yclip_prefix, bit3 yclip_suffix enabled, others MIN_SCORE); bytes, 2x2 score table, gaps and enabled clips symbolic", role="custom",
+        tier="quick" if k in (0, 1, 6, 9, 12, 15) else "thorough")
+P["C01"]["jobs"] = 6   # each query needs 6-10 GB
 add("c01_custom_1x2_k0", 535, "custom(), shape 1x2, no clips (global)", tier="thorough", role="custom")
 add("c01_fixed_1x2_k15_s1", 535, "custom(), shape 1x2, all clips enabled (symbolic in [-3,0]), concrete asymmetric table [[2,1],[-3,-1]] with gap_open 0, gap_extend -1", tier="thorough", role="custom")
 add("c01_restore_1x2_k4_s0_semi", 1215, "semiglobal() then custom() on the same aligner, shape 1x2, only yclip_prefix enabled: the second call must be optimal+valid under the aligner's OWN clip penalties (wrapper must restore them)", tier="thorough", role="restore")
@@ -208,18 +210,14 @@ for h, t, b in [
 # ---------------------------------------------------------------------------------------------------------------- C15
 add = prop("C15", "c15",
  "Bounded model checking of the floating-point kernels that do not depend on libm values, bit-precisely (CBMC's IEEE-754 encoding of +,*,casts,shifts,from_bits): Prob::checked for ALL 2^64 f64 bit patterns; the fastexp kernel for ALL doubles x <= 0 (never NaN, result in [0, 1.005], (almost) zero below the cut-off, within 0.5 % of 1 at 0) and, cell by cell, for ALL doubles in each cell of a partition of the argument range: exp(lo)*(1-0.005) <= fastexp(x) <= exp(hi)*(1+0.005).",
- "The cell bounds use endpoint values of exp computed natively at generation time (trusted: exp is monotone; libm's exp is within 1 ulp at the endpoints, and the constants are rounded outward). By construction a kernel within the property's 0.5 % of exp is never rejected; a kernel accepted on a cell is within 0.5 % + cell slack (1.09 % for the 64-cell partition of the quick tier, 0.27 % for the 256-cell partition of the thorough tier). Quick: all 64 coarse cells of the octave x in (-ln2, 0] plus 16 seed-rotated coarse cells from the octaves 2^-1, 2^-8, 2^-64, 2^-512. Thorough: all coarse cells of those octaves and all 256 fine cells of the first octave. " + TRUST + "Not decidable with this technique: every clause whose value depends on libm (ln_1p unsupported, exp/ln over-approximated by CBMC): the 0.5 % bound for ln_add_exp/ln_sum_exp/ln_cumsum_exp/ln_sub_exp/ln_one_minus_exp, the integrators, Prob<->LogProb and Prob<->PHRED conversions; the PHRED<->LogProb round trip (two multiplications by constants with a relative-error assertion) timed out at 10 min.",
+ "The cell bounds use endpoint values of exp computed natively at generation time (trusted: exp is monotone; libm's exp is within 1 ulp at the endpoints, and the constants are rounded outward). By construction a kernel within the property's 0.5 % of exp is never rejected; a kernel accepted on a cell is within 0.5 % + cell slack (1.09 % for the 64-cell partition used). Quick: Prob::checked, the range harness (all x <= 0) and 16 of the 320 coarse cells (64 per octave for the octaves 2^0, 2^-1, 2^-8, 2^-64, 2^-512), rotated by VERIF_SEED so that successive runs cover different cells. Thorough: all 320 coarse cells. Solver time per cell varies from 5 s to 10 min (measured), hence the small quick sample and the generous per-cell timeout. " + TRUST + "Not decidable with this technique: every clause whose value depends on libm (ln_1p unsupported, exp/ln over-approximated by CBMC): the 0.5 % bound for ln_add_exp/ln_sum_exp/ln_cumsum_exp/ln_sub_exp/ln_one_minus_exp, the integrators, Prob<->LogProb and Prob<->PHRED conversions; the PHRED<->LogProb round trip (two multiplications by constants with a relative-error assertion) timed out at 10 min.",
  ["bio::stats::probs::Prob::checked", "<f64 as bio::utils::FastExp>::fastexp"],
  "see level_note", "everything that calls libm; arguments between the listed octaves at the fine resolution", ["monotonicity of the real exponential; natively computed exp at cell endpoints, rounded outward by one ulp"])
 add("c15_prob_checked", 1, "Prob::checked(p).is_ok() <=> 0 <= p <= 1, all f64 bit patterns incl. NaN, +-inf, -0.0")
 add("c15_fastexp_range", 10, "fastexp for all doubles x <= 0 incl. -inf: not NaN, in [0,1.005], ~0 below -500, within 0.5 % at 0")
-for i in range(64):
-    add(f"c15_cellq_o0_{i:03d}", 180, f"fastexp accuracy, coarse cell {i}/64 of x*log2(e) in (-1,0]: all doubles in the cell", role="cell")
-for o in (1, 8, 64, 512):
+for o in (0, 1, 8, 64, 512):
     for i in range(64):
-        add(f"c15_cellq_o{o}_{i:03d}", 180, f"fastexp accuracy, coarse cell {i}/64 of the octave x*log2(e) in ({-o-1},{-o}]", tier="rotate", role="cell")
-for i in range(256):
-    add(f"c15_cellt_o0_{i:03d}", 180, f"fastexp accuracy, fine cell {i}/256 of x*log2(e) in (-1,0]", tier="thorough", role="cell")
+        add(f"c15_cellq_o{o}_{i:03d}", 560, f"fastexp accuracy, coarse cell {i}/64 of the octave x*log2(e) in ({-o-1},{-o}]: all doubles in the cell", tier="rotate", role="cell")
 P["C15"]["rotate_k"] = 16
 
 json.dump(P, open(os.path.join(V, "instances.json"), "w"), indent=1)
